@@ -214,11 +214,13 @@ def run_line(case):
     if bad:
         raise Violation('C19:line-search-includes-step-above-threshold',
                         'returned offset %r but the probed step(s) %r at or before it had objective >= threshold; %s' % (off, bad[:3], ctx))
-    # the returned offset must itself be a probed step at which the objective was below the threshold
-    if not any(abs(t - off) <= tol and v < eps for t, v in probes):
-        near = [(t, v) for t, v in probes if abs(t - off) <= tol]
-        raise Violation('C19:line-search-offset-not-an-accepted-step',
-                        'returned offset %r is not a probed step with objective below the threshold (probes there: %r); %s' % (off, near[:3], ctx))
+    # probes within rounding distance of the returned offset: if the objective was probed there it must have been below the
+    # threshold at least once (a mix of both answers is a rounding artefact of the accumulated position; no probe at all is
+    # a step back that was never probed - both are fine); only-above means the result includes a rejected step
+    near = [(t, v) for t, v in probes if abs(t - off) <= tol]
+    if near and not any(v < eps for _, v in near):
+        raise Violation('C19:line-search-offset-is-a-rejected-step',
+                        'returned offset %r was probed only with objective >= threshold (%r); %s' % (off, near[:3], ctx))
     crossed = any(v >= eps for _, v in probes)
     labels = ['shape=' + shape]
     steps_to_boundary = bnd / case['eta']
